@@ -28,9 +28,13 @@ def main():
         rc, targets = sh("ninja -C %s/_build -t targets all" % wt)
         known = set(re.findall(r"^([\w.-]+): phony", targets, re.M))
         tests = [t for t in tests if t in known]
-        rcb, outb = sh("ninja -C %s/_build -j6 %s" % (wt, " ".join(tests)), timeout=7200) if tests else (0, "")
+        extra_targets = os.environ.get("SEED_TARGETS", "").split()
+        ctest_re = os.environ.get("SEED_CTEST")
+        rcb, outb = sh("ninja -C %s/_build -j6 %s" % (wt, " ".join(tests + extra_targets)), timeout=7200) if (tests or extra_targets) else (0, "")
         res["steps"].append({"step": "build tests with patch", "tests": tests, "exit": rcb, "tail": outb[-300:]})
-        rct, outt = sh("ctest -R '^(%s)' --timeout 900 -j4" % "|".join(re.escape(t) for t in tests), cwd=os.path.join(wt, "_build")) if tests else (0, "")
+        rx = "|".join([re.escape(t) for t in tests] + ([ctest_re] if ctest_re else []))
+        rct, outt = sh("ctest -R '^(%s)' --timeout 900 -j4" % rx, cwd=os.path.join(wt, "_build")) if rx else (0, "")
+        tests = tests + extra_targets
         m = re.search(r"(\d+)% tests passed, (\d+) tests failed out of (\d+)", outt)
         res["steps"].append({"step": "run tests with patch", "exit": rct, "summary": m.group(0) if m else outt[-300:]})
         rc1, out1 = sh("sh %s/build.sh %s" % (sd, wt), cwd=sd)
